@@ -42,6 +42,12 @@ def differential(cx, harness, schemas, lines, kind, nontrivial=None):
         if l in lines or True:
             if i[0] != "S":
                 cx.count(" ".join(l.split()[2:]), True if nontrivial is None else nontrivial(l, a), kind(l, a))
+        if a != b and l.split()[2] == "valx" and a[:3] == ["ok", "invalid", "1"] and a[3:] == ["Other:-:-"] and "Other:-:-" not in b:
+            # OPEN, not compared (same class as XP_WHEN_CONTINUE in c02.py, here reached without MULTI_ERROR / OPERATIONAL by nodes that carry
+            # two whens of different origin): libyang aborts the evaluation of a must / when with an error that has no path and no
+            # app-tag ("... depends on a node with a when condition, which has not been evaluated") where the model evaluates it.
+            cx.dist["xpath:libyang-aborted-evaluation(error-without-path;not-compared;OPEN)"] += 1
+            continue
         if a != b and a[:2] not in (["err", "Crash"], ["err", "Timeout"]):
             # keep what differs (replies of histories are long)
             da = [x for x in a if x not in b][:12] if len(a) > 40 else a
